@@ -111,8 +111,16 @@ def bytes_to_blocks(
 
         # Pop all additional line offsets for additional args
         for i in range(offset + 2, next_offset, 2):
-            line_mapping.offset_to_line.pop(i, None)
-            line_mapping.offset_to_additional_line_offsets.pop(i, None)
+            unit_line = line_mapping.offset_to_line.pop(i, instruction.line_number)
+            unit_line_offsets = line_mapping.offset_to_additional_line_offsets.pop(
+                i, None
+            )
+            # We only keep one line per instruction. The peephole optimizer of
+            # Python <= 3.9 can leave a line change behind an EXTENDED_ARG
+            if unit_line != instruction.line_number or unit_line_offsets:
+                raise NotImplementedError(
+                    "Only support one line for all code units of an instruction"
+                )
 
     # Compute a sorted list of target, to map each one to a bloc offset
     targets = sorted(targets_set)
